@@ -77,7 +77,17 @@ fn hexbytes(args: &[String]) -> Vec<u8> {
     args.iter().map(|a| u8::from_str_radix(a.trim_start_matches("0x"), 16).expect("hex byte")).collect()
 }
 
+/// C08 asks only whether anything panics: with SWEEP_PANIC_ONLY=1 a result that merely differs from the executable
+/// specification is not a hit (that is the other properties' business) and the sweeps keep going past it
+pub static PANIC_ONLY: std::sync::atomic::AtomicBool = std::sync::atomic::AtomicBool::new(false);
+pub fn panic_only() -> bool {
+    PANIC_ONLY.load(std::sync::atomic::Ordering::Relaxed)
+}
+
 fn main() {
+    if std::env::var("SWEEP_PANIC_ONLY").map(|v| v == "1").unwrap_or(false) {
+        PANIC_ONLY.store(true, std::sync::atomic::Ordering::Relaxed);
+    }
     let args: Vec<String> = std::env::args().collect();
     let cmd = args.get(1).map(|s| s.as_str()).unwrap_or("");
     match cmd {
@@ -274,6 +284,7 @@ fn main() {
             });
             match r {
                 Ok(true) => println!("RESULT agrees"),
+                Ok(false) if panic_only() => println!("RESULT agrees (panic-only mode: results differ from the specification, nothing panicked)"),
                 Ok(false) => println!("RESULT MISMATCH"),
                 Err(e) => {
                     let msg = if let Some(s) = e.downcast_ref::<&str>() { s.to_string() } else if let Some(s) = e.downcast_ref::<String>() { s.clone() } else { "panic".to_string() };
